@@ -56,7 +56,6 @@ Proof.
   - exists 7, (-2), (3/5), (4/5); split; [reflexivity|lra].
   - exists (2/7), (3/7), (6/7), 0; split; [reflexivity|unfold n4; lra].
   - exists 1, 2, 3, (-1/2), (1/2), (-1/2), (-1/2); split; [reflexivity|unfold n4; lra].
-  - reflexivity.
   - exists 1, 2, 3, (-1/2), (1/2), (-1/2), (-1/2), 4, 5, 6; split; [reflexivity|unfold n4; lra].
   - exists 1, 2, 3, (2/7), (3/7), (6/7), 0, 4, 5, 6, 9; split; [reflexivity|unfold n4; lra].
 Qed.
